@@ -36,6 +36,28 @@ CLAIMED = {
              'FunctionalExtensionality.functional_extensionality_dep) as printed. Constituent correlation values are '
              'taken from the implementation (C05 covers them). Float sums compared at 1e-11 relative tolerance.',
         technique='Coq proof over R of a fold model + vm_compute correspondence over Q + direct oracle'),
+    'C05': dict(
+        text='Machine-checked proof (Coq, reals) about the executable model of ThermochemRawData/ThermochemIncomplete: tabulated Cp/R '
+             'reproduced at its temperature, Cp clamped outside the span, H/RT and S/R at T_ref equal the reference values for every '
+             'placement of T_ref, G = H - S, construction independent of supply order (sorting uniqueness), data span bounds; for all '
+             'tables and placements. The spline is an explicit function parameter whose assumed contract appears as hypotheses. '
+             'Integral clauses are decided on every run by a numerical-quadrature oracle on the implementation (and by the '
+             'correspondence), not yet by a theorem (see DESIGN 5/C05 full depth). Tie: model executed over exact rationals with '
+             'oracle tables from the same SciPy objects vs implementation.',
+        design='5 / C05',
+        note=TB + 'Axioms: standard-library real-number axioms as printed. SciPy spline/quad/log are oracles (tables in the '
+             'correspondence, hypotheses in the theorems).',
+        technique='Coq proof over R of the branch-faithful model + vm_compute correspondence with oracle tables + quadrature oracle'),
+    'C06': dict(
+        text='Machine-checked proof (Coq, reals): the estimate range is the intersection of constituent ranges (max/min fold), raw '
+             'correlations raise outside and are defined inside their range, group correlations with a table raise IncompleteDataError '
+             'outside, table-less ones return the reference value with the warning exactly when T <> T_ref, raising/warning '
+             'constituents make the estimate raise/warn; plus a refuted-strengthening theorem documenting the known finding. '
+             'Tie: correspondence over exact rationals (range fold, construction, evaluation at inside/boundary/outside temperatures) '
+             'and a direct oracle on correlations and estimates of shipped and synthetic libraries.',
+        design='5 / C06',
+        note=TB + 'Axioms: standard-library real-number axioms as printed. Float overflow is outside the model (oracle tests isfinite).',
+        technique='Coq case-analysis proofs over R + vm_compute correspondence + boundary-temperature oracle'),
 }
 
 PENDING_REASON = 'check not built yet in this round (design in DESIGN.md section 5); not claimed until it runs'
